@@ -1,6 +1,6 @@
 SPECIFICATION Spec
-CONSTANTS MaxDen = 8
- MaxLen = 3
- MaxN = 60
+CONSTANTS MaxDen = 5
+ MaxLen = 4
+ MaxN = 30
 INVARIANTS C06_Sem C06_ScaleLemma
 CHECK_DEADLOCK FALSE
